@@ -351,6 +351,8 @@ pub fn heartbeat_frag(
 
 #[derive(Clone, Debug, PartialEq)]
 pub enum Sub {
+  /// (kind, port, 16 address bytes) per locator; multicast list present iff the M flag (0x02) is set (RTPS 9.4.5.9)
+  InfoReply { unicast: Vec<(i32, u32, [u8; 16])>, multicast: Option<Vec<(i32, u32, [u8; 16])>> },
   InfoTs { ticks: Option<u64> },
   InfoDst { prefix: [u8; 12] },
   InfoSrc { prefix: [u8; 12] },
@@ -532,6 +534,30 @@ pub fn parse(msg: &[u8]) -> Result<Msg, String> {
           let f = r.u32()? as u64;
           Sub::InfoTs { ticks: Some((s << 32) | f) }
         }
+      }
+      ID_INFO_REPLY => {
+        let list = |r: &mut R| -> Result<Vec<(i32, u32, [u8; 16])>, String> {
+          let n = r.u32()? as usize;
+          if n > 1000 {
+            return Err(format!("INFO_REPLY with {n} locators"));
+          }
+          let mut v = vec![];
+          for _ in 0..n {
+            let kind = r.u32()? as i32;
+            let port = r.u32()?;
+            let a = r.take(16)?;
+            let mut addr = [0u8; 16];
+            addr.copy_from_slice(a);
+            v.push((kind, port, addr));
+          }
+          Ok(v)
+        };
+        let unicast = list(&mut r)?;
+        let multicast = if flags & 0x02 != 0 { Some(list(&mut r)?) } else { None };
+        if r.p != body.len() {
+          return Err(format!("INFO_REPLY body has {} bytes beyond what its flags announce", body.len() - r.p));
+        }
+        Sub::InfoReply { unicast, multicast }
       }
       ID_INFO_DST => {
         let s = r.take(12)?;
